@@ -121,7 +121,7 @@ def check_C08(run):
     thorough = run.tier == "thorough"
     depth, chunk = (2, 40) if thorough else (1, 10)
     g = run.generate("IdlProgGen", "INIT Init\nNEXT Next\nCONSTANTS\n Depth = %d\n Chunk = %d\n" % (depth, chunk), ["idl_prog.ndjson"], timeout=1500)
-    progs = g["idl_prog.ndjson"]
+    progs = [p for p in g["idl_prog.ndjson"] if '"style":"plain"' in p]
     genbin = build_generator(run)
     work = os.path.join(run.scratch, "gen08work")
     tf = os.path.join(run.scratch, "c08-trace.ndjson")
